@@ -11,6 +11,7 @@ import Pdb.Model.ValueTable
 import Pdb.Model.Dur
 import Pdb.Model.MultiTree
 import Pdb.Model.Migrate
+import Pdb.Model.BTree
 
 open Pdb
 
@@ -105,6 +106,7 @@ structure State where
   p1 : Option P1 := none
   c06 : Pdb.ValueTable.State := {}
   c10 : Pdb.MultiTree.DState := none
+  c04 : Option Pdb.C04.Drv := none
 
 def stepLine (s : State) (line : String) : State × String :=
   let ws := (line.trimAscii.toString.splitOn " ").filter (· ≠ "")
@@ -123,6 +125,9 @@ def stepLine (s : State) (line : String) : State × String :=
   | "c08" :: rest => (s, Pdb.Validate.driverLine rest)
   | "c12" :: rest => (s, Pdb.Dur.driverLine rest)
   | "c20" :: rest => (s, Pdb.Migrate.driverLine rest)
+  | "c04" :: rest =>
+    let r := Pdb.C04.driverStep s.c04 rest
+    ({ s with c04 := r.1 }, r.2)
   | "c10" :: rest =>
     let (c, o) := Pdb.MultiTree.step s.c10 rest
     ({ s with c10 := c }, o)
